@@ -146,6 +146,20 @@ class Forall:
         return z3.Implies(z3.And(lift(self.lo) <= t, t < lift(self.hi)), _b(self.body(t)))
 
 
+class ForallKey:
+    """Universal statement over all strings (dictionary keys): as a goal it is skolemised with a fresh string constant, as
+    an assumption it is a schema instantiated at the key terms known on the path (Ctx.key_terms) and at the skolem keys of
+    the goal."""
+    arity = 1
+    atom = None
+
+    def __init__(self, body, name='key'):
+        self.body, self.name = body, name
+
+    def inst(self, k):
+        return _b(self.body(k))
+
+
 class Sequent:
     """goal with obligation-local extra hypotheses (`reveal` of opaque definitions, instances of proved lemmas)"""
 
